@@ -46,7 +46,7 @@ func c19Alphabet(thorough bool) []c19Req {
 	a := []c19Req{
 		{Kind: "Put", Key: "k1", Val: "v"}, {Kind: "Put", Key: "k2x", Val: ""}, {Kind: "Put", Key: "j9x", Val: "v"}, {Kind: "Delete", Key: "k1"},
 		{Kind: "Batch"}, {Kind: "BatchDup"},
-		{Kind: "BeginRW"}, {Kind: "BeginRO"}, {Kind: "TxPut", Key: "k1"}, {Kind: "TxDelete", Key: "k2x"}, {Kind: "Commit"}, {Kind: "Rollback"},
+		{Kind: "BeginRW"}, {Kind: "BeginRO"}, {Kind: "TxPut", Key: "k1"}, {Kind: "TxDelete", Key: "k2x"}, {Kind: "Commit"}, {Kind: "Rollback"}, {Kind: "TxPutBig"},
 		// requests that must be rejected without side effects
 		{Kind: "PutEmptyKey"}, {Kind: "PutKey4097"}, {Kind: "Batch1001"}, {Kind: "BatchBadKey"}, {Kind: "TxGetBadKey"}, {Kind: "TxPutUnknown"}, {Kind: "TxPutBadKey"},
 		{Kind: "PutKey4096"},
@@ -65,6 +65,7 @@ type c19State struct {
 	txView map[string][]byte // model + own writes of the open transaction
 	dead   []string          // handles that were committed / rolled back
 	step   int
+	doomed bool // the open transaction holds a value larger than a log record: its commit fails (as it does embedded)
 }
 
 // apply executes one request; returns a problem if the response disagrees with the embedded semantics.
@@ -189,6 +190,19 @@ func (s *c19State) apply(q c19Req) string {
 		} else {
 			delete(s.txView, q.Key)
 		}
+	case "TxPutBig":
+		// within the service's limits (10 MiB) but larger than one log record: accepted now, the commit will fail
+		if s.handle == "" || s.ro {
+			return ""
+		}
+		v := bytes.Repeat([]byte("G"), 40000)
+		resp, err := s.srv.TxPut(ctx, &pb.TxPutRequest{TransactionId: s.handle, Key: []byte("big"), Value: v})
+		if err != nil || resp == nil || !resp.Success {
+			return fmt.Sprintf("valid-request-rejected\n%s failed: %v", q, err)
+		}
+		s.txView["\x00own:big"] = nil
+		s.txView["big"] = v
+		s.doomed = true
 	case "Commit", "Rollback":
 		if s.handle == "" {
 			// finishing an already finished / never created handle must fail
@@ -218,6 +232,15 @@ func (s *c19State) apply(q c19Req) string {
 			resp, err = s.srv.RollbackTransaction(ctx, &pb.RollbackTransactionRequest{TransactionId: s.handle})
 			ok = resp != nil && resp.Success
 		}
+		if q.Kind == "Commit" && s.doomed {
+			// the commit fails (the engine refuses the oversized entry): nothing is applied and the handle is finished
+			if err == nil && ok {
+				return fmt.Sprintf("oversized-commit-accepted\n%s of a transaction holding a 40000-byte value succeeded", q)
+			}
+			s.dead = append(s.dead, s.handle)
+			s.handle, s.txView, s.doomed = "", nil, false
+			return ""
+		}
 		if err != nil || !ok {
 			return fmt.Sprintf("valid-request-rejected\n%s failed: %v", q, err)
 		}
@@ -234,7 +257,7 @@ func (s *c19State) apply(q c19Req) string {
 			}
 		}
 		s.dead = append(s.dead, s.handle)
-		s.handle, s.txView = "", nil
+		s.handle, s.txView, s.doomed = "", nil, false
 	case "PutEmptyKey":
 		_, err := s.srv.Put(ctx, &pb.PutRequest{Key: nil, Value: []byte("x")})
 		return mustReject("Put with an empty key", err, nil)
@@ -412,7 +435,7 @@ func (s *c19State) reads() string {
 }
 
 func (s *c19State) key() string {
-	return s.r.StateKey() + fmt.Sprintf("|h=%v ro=%v dead=%d view=%s", s.handle != "", s.ro, len(s.dead), canonValues(strModel(s.txView)))
+	return s.r.StateKey() + fmt.Sprintf("|h=%v ro=%v doomed=%v dead=%d view=%s", s.handle != "", s.ro, s.doomed, len(s.dead), canonValues(strModel(s.txView)))
 }
 
 func c19Run(dir string, prog []c19Req, res *fw.Result) (problem, key string, out vsched.Outcome, detail string) {
@@ -514,7 +537,7 @@ func init() {
 	fw.Register(&fw.Check{
 		ID:    "C19",
 		Level: "model_checking",
-		Rule: "explicit-state search over request sequences (depth 4, thorough 5) against the real KevoServiceServer handlers (in-memory stream objects) on a real engine: alphabet of 20 (23) requests {Put (incl. empty value, 4096-byte key, 10 MiB value), Delete, BatchWrite (3 ops incl. empty value; repeated key; 1000 ops), Begin rw/ro, TxPut, TxDelete, Commit, Rollback (also on finished/unknown handles), and requests that must be rejected: empty key, 4097-byte key, 10 MiB+1 value, 1001-operation batch, batch with a bad key in its second operation, TxGet/TxPut with bad keys, TxPut on an unknown handle}; after every sequence the whole read suite runs: Get/TxGet of 7 keys, all 32 combinations of {prefix, suffix, start, end, limit} for Scan or TxScan, 9 prefix/suffix pairs that overlap on a key / equal a whole key / exceed every key, limit 2, GetNodeInfo, use of finished handles, and the embedded reads on the same engine. Oracle: map model with the documented rule that prefix/suffix make start/end ignored; a rejected request changes nothing (state, open transaction). States de-duplicated by engine state + open handle + transaction view. Non-trivial = sequences with >=2 requests",
+		Rule: "explicit-state search over request sequences (depth 4, thorough 5) against the real KevoServiceServer handlers (in-memory stream objects) on a real engine: alphabet of 21 (24) requests {TxPut of a 40000-byte value (accepted; the commit then fails as it does embedded, and the handle must be finished), Put (incl. empty value, 4096-byte key, 10 MiB value), Delete, BatchWrite (3 ops incl. empty value; repeated key; 1000 ops), Begin rw/ro, TxPut, TxDelete, Commit, Rollback (also on finished/unknown handles), and requests that must be rejected: empty key, 4097-byte key, 10 MiB+1 value, 1001-operation batch, batch with a bad key in its second operation, TxGet/TxPut with bad keys, TxPut on an unknown handle}; after every sequence the whole read suite runs: Get/TxGet of 7 keys, all 32 combinations of {prefix, suffix, start, end, limit} for Scan or TxScan, 9 prefix/suffix pairs that overlap on a key / equal a whole key / exceed every key, limit 2, GetNodeInfo, use of finished handles, and the embedded reads on the same engine. Oracle: map model with the documented rule that prefix/suffix make start/end ignored; a rejected request changes nothing (state, open transaction). States de-duplicated by engine state + open handle + transaction view. Non-trivial = sequences with >=2 requests",
 		Assumptions: []string{"handlers are called directly with in-memory stream objects (protobuf marshalling is not exercised; empty bytes fields are passed as nil, which is what unmarshalling yields)", "Compact and GetStats are administrative and outside the statement's list", "a client does not open a second transaction (Scan, BatchWrite) while holding a handle"},
 		Units: func(tier string) []string {
 			var us []string
